@@ -274,7 +274,7 @@ CONFIG = {
         "partial": "relative to syn's print/parse round trip (hypothesis of the agreement theorem, observed by the correspondence only)",
     },
     "C14": {
-        "lean_modules": ["Darling.Props.C14"],
+        "lean_modules": ["Darling.Props.C14", "Darling.Props.C14Spec"],
         "streams": [
             {"name": "c14", "n": {"quick": 30000, "thorough": 600000},
              "trivial": lambda case, ans: "(mlist (path false (\"m\") true \"m\" 0 1) ()" in case},
